@@ -47,6 +47,18 @@ PROJ = {
 
 # --------------------------------------------------------------------------- generation
 
+def _spec(rng: random.Random, kind: str) -> str:
+    """a strategy callable: the plain `(ctx)` / `(attempt, klass, prev_sleep_s)` signature, or the same
+    required parameters with defaulted extras, `*args`, defaulted kw-only parameters, `**kwargs`
+    (`_normalize_strategy` must decide from the REQUIRED parameters only; the model decides with
+    `normalizeSig`)"""
+    if rng.random() < 0.7:
+        return kind
+    req = 1 if kind == "ctx" else 3
+    return (f"sig={req}.{rng.choice([0, 1, 2, 2, 3])}.{int(rng.random() < 0.25)}.0."
+            f"{rng.choice([0, 0, 1])}.{int(rng.random() < 0.25)}")
+
+
 def gen_cfg(rng: random.Random, focus: str | None = None) -> tuple[LoopCfg, Profile]:
     c = LoopCfg()
     prof = Profile()
@@ -56,10 +68,10 @@ def gen_cfg(rng: random.Random, focus: str | None = None) -> tuple[LoopCfg, Prof
     for k in CLASSES:
         if rng.random() < 0.2:
             c.per_class[k] = rng.choice([0, 1, 1, 2, 3])
-    c.strat_default = rng.choice(["ctx", "ctx", "legacy", None])
+    c.strat_default = rng.choice([_spec(rng, "ctx"), _spec(rng, "ctx"), _spec(rng, "legacy"), None])
     for k in CLASSES:
         if rng.random() < (0.25 if c.strat_default else 0.6):
-            c.strat_for[k] = rng.choice(["ctx", "legacy"])
+            c.strat_for[k] = _spec(rng, rng.choice(["ctx", "legacy"]))
     keys = (["default"] if c.strat_default else []) + [f"cls:{k}" for k in c.strat_for]
     c.strat_records = [k for k in keys if rng.random() < 0.25]
     if rng.random() < 0.4:
